@@ -529,6 +529,13 @@ class Interp:
             return True
         if isinstance(st, ast.Try):
             return self.exec_try(st, frame, pc)
+        if isinstance(st, ast.With):
+            # context managers are modelled as their value (files); __exit__ has no analysed effect
+            for item in st.items:
+                v = self.eval(item.context_expr, frame)
+                if item.optional_vars is not None:
+                    self.assign(item.optional_vars, v, frame)
+            return self.exec_block(st.body, frame, pc)
         if isinstance(st, ast.Delete):
             for t in st.targets:
                 if isinstance(t, ast.Subscript):
